@@ -7,6 +7,10 @@ import importlib
 
 CLAIMED = {
  # id: (technique, level_note, design_ref)
+ 'C02': ('abstract interpretation over the finite selector-kind domain {INT, SLICE, SEQ}: predicate and rewrite evaluation per kind, guard-derived kind multisets per numpy subscript, numpy advanced-indexing rule; mask/attribute/time-flag lints',
+         'Decides the orthogonality precondition: at no numpy subscript of sliceDimensions can an arbitrary-length sequence meet another advanced index (enumerated for all kind multisets up to rank 4, '
+         'which covers every combination since only the count of sequences matters); selected values keep their mask; attributes are copied; the IOAPI wrapper keeps the selected time flags. '
+         'Not decided: value equality with a per-axis take for every selector, keyword-order independence. Trusted: numpy indexing rule as documented.', '4/C02'),
  'C09': ('symbolic interpreter of the writers + size algebra: emission sequences parsed into Fortran records, marker == payload as polynomial identity; pad stores vs dtype-literal byte sums; record-kind sequence vs reader record; shared slot/cell-count rules',
          'Decides: for 7 CAMx writers and writeline, every record has equal markers whose value is the payload byte count for all sizes and the sequence tiles into records; SPAD/EPAD pads (CAMx, landuse key, bpch) equal the bracketed bytes; '
          'per-layer record pieces match the reader record; header dates/cell counts agree with content; met readers detect time steps with the full identifier. Undecided (listed): wind LSTAGGER size, records copied from a reader, land-use data pads. '
